@@ -94,7 +94,7 @@ NoOob == ~P.oob
 SigmaS == << <<64>>, <<65>>, <<66>>, <<67>>, <<68>>, <<16, 5>>, <<17, 5, 0>>, <<20, 1, 97>>, <<20, 1, 98>>, <<20, 0>>,
              <<21, 1, 0, 97>>, <<0>>, <<17, 128>>, <<24, 1, 170>>, <<21, 128, 0>> \o [i \in 1..128 |-> 109] >>
 SigmaL == SigmaS \o << <<70, 0, 0, 0, 0, 0, 0, 240, 63>>, <<19, 0, 0, 0, 128, 0, 0, 0, 0>>, <<18, 0, 128, 0, 0>>,
-                        <<20, 5, 97>>, <<24, 255>>, <<69>> >>
+                        <<20, 5, 97>>, <<24, 255>>, <<69>>, <<20, 128>> \o [i \in 1..128 |-> 97] >>
 \* tiny alphabet for name-order violations (name,value,name,value needs 4 tokens)
 SigmaT == << <<20, 1, 97>>, <<20, 1, 98>>, <<20, 1, 99>>, <<16, 5>>, <<65>>, <<64>> >>
 NamesS == {<<97>>, <<98>>, <<>>, <<99>>}
